@@ -796,6 +796,9 @@ func registrationLoop(p *an.Prog, fc *ssa.Function) (*ssa.Function, []*ssa.Basic
 				hdrs = append(hdrs, h)
 			}
 		}
+		if owner == f {
+			return // the helpers this loop calls are part of its iterations (interpreted inline)
+		}
 		for _, b := range f.Blocks {
 			for _, in := range b.Instrs {
 				if ci, ok := in.(ssa.CallInstruction); ok {
